@@ -29,6 +29,8 @@ type Vibranium struct {
 	counter sync.WaitGroup
 	stop    chan struct{}
 	TaskNum int
+	// taskNumLock guards TaskNum: tasks start and finish on the goroutines of concurrent calls
+	taskNumLock sync.Mutex
 }
 
 // Info show core info
